@@ -125,7 +125,6 @@ func init() {
 	visibleIntrinsics["(*time.Ticker).Stop"] = true
 }
 
-
 // ctxCanceledErr: the context.Canceled sentinel of this machine (so that errors.Is recognises it), bare
 // (Context.Err) or wrapped the way net/http's client returns it
 func (m *Machine) ctxCanceledErr(wrapped bool) Value {
